@@ -135,7 +135,7 @@ def rule_pagination(ck):
                 continue
             if "['_links']['next']['href']" in us and us.startswith("self.url + "):
                 kinds.add("next")
-            elif "self.url" in us and "'sessions/' + " in us and ".join(" in us:
+            elif "self.url" in us and "'sessions/' + " in us and (".join(" in us or us.endswith(" + ''")):     # the query string may be empty
                 kinds.add("first")
             else:
                 ck.violation("C20.R2", f, c, f"a page is requested from `{us[:100]}`, which is neither the first-page URL nor base + the current page's 'next' link", sink="page:url")
